@@ -17,6 +17,10 @@ def make_jobs(inst, rng, n):
         r = rng.random()
         if r < 0.15:
             rp["pool_filter"] = "block"
+        mt = rng.choice([1, 1, 2, 3])
+        if mt > 1:
+            # parallel tries: every worker may run its own copy of a dependant
+            rp["max_tries"] = str(mt)
         jobs.append({"sched": {"seed": rng.randrange(1 << 30), "statuses": ["PASS", "FAIL"], "weights": [6, 1]},
                      "store": D.random_store(inst, rng, rng.choice([0.0, 0.3, 0.7])), "run_params": rp, "cap": 8000})
     return jobs
@@ -35,8 +39,8 @@ def describe(inst, res, f):
 def run(tier, seed):
     quick = tier == "quick"
     allrm = {"unset_mode": "fi"}
-    plan = [("guix2", None, 40), ("getx2", None, 25), ("tut13x2", allrm, 30)] if quick else \
-           [("guix2", None, 300), ("guix3e", None, 250), ("guic", None, 200), ("getx2", None, 300), ("tut13x2", allrm, 300),
+    plan = [("guix2", None, 30), ("getx3", None, 40), ("tut13x2", allrm, 25)] if quick else \
+           [("guix2", None, 300), ("getx3", None, 300), ("guix3e", None, 250), ("guic", None, 200), ("getx2", None, 300), ("tut13x2", allrm, 300),
             ("tut13x3", allrm, 250), ("guix2", {"pool_filter": "copy"}, 150)]
     return D.generic_run(PID, tier, seed, plan, make_jobs, signature, describe,
                          rule="randomized schedules on graphs with removable states (tutorial_gui/tutorial_get; every state removable via "
